@@ -58,8 +58,11 @@ Definition mech_name (m : mechanism) : string :=
               | 3 double free / invalid free / alloc-dealloc mismatch | 4 misaligned access or construction
               | 5 signed integer overflow | 6 other UBSan report (division by zero, shift, null, bounds, ...)
               | 7 leak reported by LSan at exit | 8 SEGV / other deadly signal reported by ASan | 9 unclassified sanitizer output
-   owner mask: TimedTask cases only: the known-domain bits of C26's judge_tt for the same case (1 = start after cancel,
-               2 = closure access after ~TimedTask returned, 4 = start after a false return); 0 for every other harness *)
+   owner mask: TimedTask cases only: what C26's judge_tt says about the same case (value 1 = start after cancel, 2 = closure
+               access after ~TimedTask returned, 4 = start after a false return: the three known-domain bits of its verdict;
+               8 = its model run saw a closure use-after-free that is not after the destructor's return (the wrapper's
+               func = {} after a false return while the closure is in use: verdict + 200), 16 = it saw an empty func being
+               called (verdict + 100)); 0 for every other harness *)
 Definition san_record : Type := (Z * Z * Z)%type.
 
 Definition H_TIMEDTASK : Z := 11.
@@ -70,7 +73,7 @@ Definition K_UAF : Z := 2.
 Definition known_c26_dtor (r : san_record) : bool :=
   let '(h, k, mask) := r in (h =? H_TIMEDTASK) && (k =? K_UAF) && Z.testbit mask 1.
 Definition known_c26_false (r : san_record) : bool :=
-  let '(h, k, mask) := r in (h =? H_TIMEDTASK) && (k =? K_UAF) && Z.testbit mask 2.
+  let '(h, k, mask) := r in (h =? H_TIMEDTASK) && (k =? K_UAF) && Z.testbit mask 3.
 
 (* verdict: 0 clean | 2 violation | 4 known finding C26-dtor-func-uaf | 5 known finding C26-false-return-func-uaf *)
 Definition judge_san (r : san_record) : Z :=
@@ -91,3 +94,19 @@ Record library_semantics := {
 }.
 Definition C11_statement_for (L : library_semantics) : Prop :=
   forall p tr, ls_in_contract L p -> ls_reports L p tr -> san_clean tr = true.
+
+(* ------------------------------------------------------------------------------------------------ what no theorem covers *)
+(* parts of the library for which no memory-safety statement can even be written here (no lifetime / ownership model) *)
+Local Open Scope string_scope.
+Definition not_covered_names : list string :=
+  ["ThreadPool / TaskSet / ConcurrentTaskSet: lifetime of queued OnceFunctions and their payloads (incl. the cancelled-task skip path task_set_impl.h:117), PerThreadInfo, wake state";
+   "pipeline: stage buffers, discard path after an exception (pipeline_impl.h:154), OpResult payloads in flight";
+   "parallel_for / for_each: closures, per-thread states, exception propagation";
+   "Graph / Subgraph: node functor buffers, SubgraphT::clear, BiProp sets";
+   "Future: then-chains, result storage and exception_ptr (only the reference count is modelled)";
+   "TimedTask: everything except func teardown by the destructor; the wrapper's func = {} after a false return while the closure is in use is a use-after-free (C26 observation, C11 finding C26-false-return-func-uaf)";
+   "moodycamel::ConcurrentQueue (third-party): raw pointer arithmetic, block recycling (enters C41 as a hypothesis)";
+   "ResourcePool, AsyncRequest, RWLock, Latch, CompletionEvent: no heap ownership modelled";
+   "allocation failure (bad_alloc) paths, stack exhaustion (C46 covers the dispenso-induced depth only)";
+   "SmallBufferAllocator thread-exit path and global teardown order"].
+Local Close Scope string_scope.
